@@ -23,6 +23,7 @@ import (
 	"fmt"
 	"math/big"
 	"os"
+	"runtime"
 	"strconv"
 	"strings"
 	"time"
@@ -99,13 +100,34 @@ func mbitsCase(op string, off, n int, mem string) string {
 
 // ---- watchdog
 
-const watchdog = 2 * time.Second
+// The cases run on one long-lived worker goroutine; the generator waits for its answer and counts
+// the ticks of a 500 ms ticker meanwhile (no per-case timer): five ticks without an answer -- 2 to
+// 2.5 s; a case takes microseconds, the largest ones a fraction of a millisecond -- is a hang.
+// The stuck worker is abandoned (it cannot be stopped) and a new one started.  Until the first
+// hang everything runs on one processor (the hand-over to the worker is then a plain goroutine
+// switch, 1 us per case instead of 2.5).
+const watchdogTicks = 5
 
 var (
 	hangs    = map[string]int{}
 	spinning int
-	wdTimer  = time.NewTimer(time.Hour)
+	wdTick   = time.NewTicker(500 * time.Millisecond)
+	wdReq    chan string
+	wdResp   chan string
 )
+
+func worker(req <-chan string, resp chan<- string) {
+	for in := range req {
+		func() {
+			defer func() {
+				if r := recover(); r != nil {
+					resp <- "panic:" + tr.PanicKind(r)
+				}
+			}()
+			resp <- execRaw(in)
+		}()
+	}
+}
 
 // exec runs one case under the watchdog.
 func exec(in string) string {
@@ -116,29 +138,24 @@ func exec(in string) string {
 	if hangs[kind] >= 3 || spinning >= 6 {
 		return "hang-skipped"
 	}
-	done := make(chan string, 1)
-	go func() {
-		defer func() {
-			if r := recover(); r != nil {
-				done <- "panic:" + tr.PanicKind(r)
-			}
-		}()
-		done <- execRaw(in)
-	}()
-	if !wdTimer.Stop() {
-		select {
-		case <-wdTimer.C:
-		default:
-		}
+	if wdReq == nil {
+		wdReq, wdResp = make(chan string), make(chan string, 1)
+		go worker(wdReq, wdResp)
 	}
-	wdTimer.Reset(watchdog)
-	select {
-	case s := <-done:
-		return s
-	case <-wdTimer.C:
-		hangs[kind]++
-		spinning++
-		return "hang"
+	wdReq <- in
+	for ticks := 0; ; {
+		select {
+		case s := <-wdResp:
+			return s
+		case <-wdTick.C:
+			if ticks++; ticks >= watchdogTicks {
+				hangs[kind]++
+				spinning++
+				wdReq = nil                          // the next case gets a fresh worker
+				runtime.GOMAXPROCS(runtime.NumCPU()) // ... and a processor of its own
+				return "hang"
+			}
+		}
 	}
 }
 
@@ -496,7 +513,8 @@ func mutateNat(r *tr.Rand, s string) string {
 }
 
 func main() {
-	tr.Main("C20. mbits: every zero/non-zero pattern of every length 0..L (L=10 quick, 15 thorough) plus, for lengths up to 40, all-zero, one and two non-zero bytes at every position; each at all 8 alignments inside a buffer with >= 8 guard bytes on both sides, guards 0xa5 and 0x00 (the whole buffer is compared after Zero). Trunc: every cut point n in -1..len+1 of every string of up to 3 (4) runes over an 11-rune alphabet of 1-4-byte encodings at the encoding-length boundaries, of every string of up to 4 (5) bytes over 8 valid/invalid byte classes, and of random mixed strings. CompareNatural: all ordered pairs of strings of length <= 3 (4) over {0 1 9 / : a}, all triples of strings of length <= 2 and random triples of length <= 4 (order laws), random longer strings with leading zeros and digit runs up to 25 digits, paired with mutations of themselves; digit runs within 2 of 2^63, 2^64, 2^64+2^63, 2^65, 10^18, 10^19 bare, with leading zeros and embedded (all pairs, random triples; the order laws are asserted there too), runs of 19-40 zeros. mbits also: slices of 4096, 4097, 4103 (thorough: 4095, 4104, 8195, 12288) bytes at alignments 0, 1, 7. Trunc also: n = 2^62-1. Supplementary, outside the text of C20 (correspondence only): Lines on all strings up to 5 (6) over {a, LF, CR, b}; Split on all strings up to 4 (6) over {a , b} with separators empty, [,], a, aa, ab, [a,], on rune strings, and Split(s, empty) on valid/invalid byte strings. A case is non-trivial when the slice has a word loop or a non-zero byte / the cut is inside the string / a digit occurs.",
+	runtime.GOMAXPROCS(1)
+	tr.Main("C20. mbits: every zero/non-zero pattern of every length 0..L (L=10 quick, 15 thorough) plus, for lengths up to 26 (40), all-zero, one and two non-zero bytes at every position; each at all 8 alignments inside a buffer with >= 8 guard bytes on both sides, guards 0xa5 and 0x00 (the whole buffer is compared after Zero). Scale: lengths 2^k-1, 2^k, 2^k+1 for k=5..13 and a few random ones up to 9000, at all 8 alignments, with the only non-zero bytes at the places that decide the counts (none, first, last, n-9, n-8, 7, 8, middle, random deep, both ends of a deep word) -- all 11 patterns up to 1100 bytes, 2-3 rotating ones above; Zero at every alignment up to 2100 bytes, at 2 of 8 alignments around 4096 and 1 of 8 around 8192 (quick; rotating with size and seed; thorough: all). Every non-zero byte value at every position of a 17-byte window. Trunc: every cut point n in -1..len+1 of every string of up to 3 (4) runes over an 11-rune alphabet of 1-4-byte encodings at the encoding-length boundaries, of every string of up to 4 (5) bytes over 8 valid/invalid byte classes, of random mixed strings, of every token of the wide alphabet (below) and every single byte value between neighbours of every width, of random strings of wide tokens; strings of 2^k-1..2^k+1 (+3) bytes, k=3..13, of one kind of rune (1-4 bytes, mixed) or of lead / continuation bytes only, cut at the start, middle and end; n = 2^62-1. CompareNatural: all ordered pairs of strings of length <= 3 (4) over {0 1 9 / : a}, all multisets of three strings of length <= 2 (the six comparisons of a triple are recorded and the order laws evaluated for every arrangement) and random triples of length <= 4, random longer strings with leading zeros and digit runs up to 25 digits paired with mutations of themselves; digit runs within 2 of 2^63, 2^64, 2^64+2^63, 2^65, 10^18, 10^19 bare, with leading zeros and embedded (all pairs, random triples), runs of 19-40 zeros. Wide alphabet: Unicode decimal digits outside ASCII (Nd; Arabic-Indic, Devanagari, Thai, full-width, mathematical, Brahmi, Adlam ...: 2-, 3- and 4-byte encodings), other numbers (No/Nl), Unicode spaces, non-ASCII letters, combining marks and joiners, 4-byte runes and the ends of the code space, invalid UTF-8 (stray continuation and lead bytes, overlong forms, surrogates, cut-off encodings of those digits) -- every token alone, before, after and inside ASCII digit runs and between letters (14 frames) against the same frame holding itself, its neighbour in the class, an ASCII digit, a zero, a letter, nothing, '/' and ':'; every byte value 0..255 in 8 frames; all ordered pairs of strings of up to 2 tokens and all multisets of three single tokens over 12 representatives, random triples of those; random strings of 1-6 tokens of all classes paired / tripled with mutations of themselves (same string, token exchanged within or across classes, ASCII digit for Unicode digit and back, leading zero of some script, token deleted / added / moved, one byte changed to any value, cut at any byte). Scale: strings agreeing on their first n bytes (one digit run, zeros, one run of letters, many short tokens, full-width digits, mixed runes), n around 2^k up to 2^11 (quick: fewer kinds per size above 300 bytes; thorough to 2^12), and strings of about 2^k bytes up to 2^13 differing within the first 30 bytes. Every call runs under a 2 s watchdog (recorded as hang). Supplementary, outside the text of C20 (correspondence only): Lines on all strings up to 5 (6) over {a, LF, CR, b}; Split on all strings up to 4 (6) over {a , b} with separators empty, [,], a, aa, ab, [a,], on rune strings, and Split(s, empty) on valid/invalid byte strings. A case is non-trivial when the slice has a word loop or a non-zero byte / the cut is inside the string / a digit occurs.",
 		exec, func(g *tr.G) {
 			// ---- mbits
 			L := g.Scale(10, 15)
@@ -528,13 +546,14 @@ func main() {
 				}
 				emitMbits(g, p, "random")
 			}
-			for _, n := range []int{4096, 4097, 4103} {
-				emitBig(g, n)
-			}
+			emitScaleMbits(g)
 			if g.Thorough() {
-				for _, n := range []int{4095, 4104, 8195, 12288} {
+				for _, n := range []int{4095, 4096, 4097, 4103, 4104, 8195, 12288} {
 					emitBig(g, n)
 				}
+			}
+			if tight {
+				return // the end-of-allocation run is about the mbits cases only (same inputs: they come first)
 			}
 			// ---- Trunc
 			allStrings(runeAlpha, g.Scale(3, 4), func(s string, k int) { emitTrunc(g, s, true, "runes") })
@@ -550,6 +569,8 @@ func main() {
 				}
 				emitTrunc(g, sb.String(), false, "random-mixed")
 			}
+			emitWideTrunc(g)
+			emitScaleTrunc(g)
 			// ---- supplementary (outside C20): Lines and Split
 			allStrings([]string{"a", "\n", "\r", "b"}, g.Scale(5, 6), func(s string, k int) {
 				g.Emit("N "+tr.Hex(s), strings.Contains(s, "\n"), "supp-lines")
@@ -589,20 +610,24 @@ func main() {
 			}
 			var tiny []string
 			allStrings(natAlpha, 2, func(s string, k int) { tiny = append(tiny, s) })
-			for _, a := range tiny {
-				for _, b := range tiny {
-					for _, c := range tiny {
+			// every multiset {a, b, c}: the line records all six ordered comparisons and the order
+			// laws are evaluated for every arrangement of the three, so nothing is lost against
+			// enumerating the ordered triples
+			for i := range tiny {
+				for j := i; j < len(tiny); j++ {
+					for k := j; k < len(tiny); k++ {
+						a, b, c := tiny[i], tiny[j], tiny[k]
 						g.Emit("X "+tr.Hex(a)+" "+tr.Hex(b)+" "+tr.Hex(c), hasDigit(a+b+c), "all-triples")
 					}
 				}
 			}
 			var mid []string
 			allStrings(natAlpha, 4, func(s string, k int) { mid = append(mid, s) })
-			for i := 0; i < g.Scale(10000, 400000); i++ {
+			for i := 0; i < g.Scale(7000, 400000); i++ {
 				a, b, c := tr.Pick(g.R, mid), tr.Pick(g.R, mid), tr.Pick(g.R, mid)
 				g.Emit("X "+tr.Hex(a)+" "+tr.Hex(b)+" "+tr.Hex(c), true, "random-triples")
 			}
-			for i := 0; i < g.Scale(5000, 200000); i++ {
+			for i := 0; i < g.Scale(3500, 200000); i++ {
 				a := randNat(g.R)
 				b := mutateNat(g.R, a)
 				if g.R.Chance(1, 4) {
@@ -628,10 +653,16 @@ func main() {
 					g.Emit("C "+tr.Hex(a)+" "+tr.Hex(b), true, natTags(a, b, "int-boundary-pairs")...)
 				}
 			}
-			for i := 0; i < g.Scale(4000, 100000); i++ {
+			// (the model's 64-bit wrap-around makes these the most expensive lines of the trace: about
+			// 1 ms of model time per triple)
+			for i := 0; i < g.Scale(2000, 100000); i++ {
 				a, b, c := tr.Pick(g.R, forms), tr.Pick(g.R, forms), tr.Pick(g.R, forms)
 				g.Emit("C "+tr.Hex(a)+" "+tr.Hex(b), true, natTags(a, b, "int-boundary-forms")...)
-				g.Emit("X "+tr.Hex(a)+" "+tr.Hex(b)+" "+tr.Hex(c), true, natTags3(a, b, c, "int-boundary-triples")...)
+				if g.Thorough() || i%2 == 0 {
+					g.Emit("X "+tr.Hex(a)+" "+tr.Hex(b)+" "+tr.Hex(c), true, natTags3(a, b, c, "int-boundary-triples")...)
+				}
 			}
+			emitWideCompare(g)
+			emitScaleCompare(g)
 		})
 }
